@@ -266,9 +266,19 @@ def graph_search(run, rnd, dates, n_pops, n_alt=5):
                 ok2, r2 = run.attempt(f"default targets with {c2} instead of {c}", popgen.simulate, alt, date)
                 if not ok2:
                     continue
+                # the reference run gets the values the converter will give back (bit for bit), so that a value that sits
+                # exactly on a threshold or a rounding tie is not moved by the float round trip x -> x*k -> (x*k)/k
+                from _gettsim import time_conversion as T
+                back = getattr(T, f"{v}_to_{u}")(alt[c2].to_numpy())
+                if np.array_equal(back, df[c].to_numpy()):
+                    ref = r1
+                else:
+                    ok3, ref = run.attempt(f"default targets with {c} = {v}_to_{u}({c2})", popgen.simulate, df.assign(**{c: back}), date)
+                    if not ok3:
+                        continue
                 run.case({"alt-unit": [c, c2], "date": date, "pop": k})
-                for t in r1.columns:
-                    if not popgen.close(r1[t].to_numpy(), r2[t].to_numpy(), rel=1e-9):
+                for t in ref.columns:
+                    if not popgen.close(ref[t].to_numpy(), r2[t].to_numpy(), rel=1e-9):
                         run.hit({"node": t, "kind": "input-in-other-unit-changes-result", "units": f"{v}->{u}"},
                                 f"{t} changes when {c} is supplied as {c2} (= {c} x {factor(u, v)}) at {date}",
                                 {"date": date, "data": popgen.frame_to_json(alt), "node": t, "instead_of": c, "supplied": c2})
